@@ -7,6 +7,7 @@ CONSTANTS
   ManLockThroughCompaction = TRUE
   GuardUnderLock = TRUE
   SeqUnderSnapLock = TRUE
+  LastUnderLock = TRUE
 INIT Init
 NEXT Next
 INVARIANT QuiescentRecovers
